@@ -407,6 +407,29 @@ def part_registry_default_system(ctx, shard):
                     "convert_to_base(name)": attempt(lambda: (lambda y: (y.convert_to_base(us), y)[1])(x.copy())),
                     "get_base_equivalent()": attempt(lambda: x.units.get_base_equivalent()),
                 }
+                # the routes that NAME their system in their own name answer in that system whatever the registry's default is
+                for sysname in ("mks", "cgs"):
+                    named2 = attempt(lambda: x.in_base(sysname))
+                    fixed = {
+                        f"in_{sysname}()": attempt(lambda: getattr(x, "in_" + sysname)()),
+                        f"convert_to_{sysname}()": attempt(lambda: (lambda y: (getattr(y, "convert_to_" + sysname)(), y)[1])(x.copy())),
+                        f"get_{sysname}_equivalent()": attempt(lambda: getattr(x.units, f"get_{sysname}_equivalent")()),
+                    }
+                    for rname, r in fixed.items():
+                        case = {"part": "registry-default-system", "system": us, "unit": name, "route": rname, "shape": shape}
+                        base = f"C03|registry-default-system|system={us}|unit={ukey(name)}|route={rname}"
+                        ctx.outcome(("regdefault", us, name, rname, r[0], named2[0]))
+                        if (r[0] == "ok") != (named2[0] == "ok"):
+                            ctx.violation(base + "|mode=disagrees-with-named-route-on-refusal", case, named2[:1], r[:1])
+                            continue
+                        if r[0] != "ok":
+                            continue
+                        ctx.decided(("regdefault", us, name, rname, shape))
+                        ru = r[1] if rname.startswith("get_") else r[1].units
+                        if ru != named2[1].units or str(ru.expr) != str(named2[1].units.expr):
+                            ctx.violation(base + "|mode=answers-in-another-unit-system", case, str(named2[1].units), str(ru))
+                        elif not rname.startswith("get_") and close(ctx, r[1], named2[1], [x, named2[1]], EPS["float64"]) is False:
+                            ctx.violation(base + "|mode=numbers-differ-from-named-route", case, str(named2[1]), str(r[1]))
                 for rname, r in routes.items():
                     case = {"part": "registry-default-system", "system": us, "unit": name, "route": rname, "shape": shape}
                     base = f"C03|registry-default-system|system={us}|unit={ukey(name)}|route={rname}"
@@ -424,9 +447,77 @@ def part_registry_default_system(ctx, shard):
                         ctx.violation(base + "|mode=numbers-differ-from-named-route", case, str(named[1]), str(r[1]))
 
 
+def part_namesake(ctx, shard):
+    """source and target spelled alike but defined differently: the target Unit object belongs to another registry, or
+    was built before its registry was edited.  Every route that takes a Unit object converts by the two DEFINITIONS
+    (scale of source / scale of target), never by the spelling."""
+    from unyt import dimensions as udims
+    from unyt.unit_registry import UnitRegistry
+
+    world.reset_world()
+
+    def regs():
+        ra, rb = UnitRegistry(), UnitRegistry()
+        for r, (cl, cm_, ct) in ((ra, (10.0, 2.0, 4.0)), (rb, (5.0, 8.0, 4.0))):
+            r.add("code_length", cl, udims.length)
+            r.add("code_mass", cm_, udims.mass, prefixable=True)
+            r.add("code_time", ct, udims.time)
+        rb.modify("pc", 3.0e16)
+        return ra, rb
+
+    for expr in shard:
+        for how in ("foreign-registry", "stale-after-modify", "foreign-to-default"):
+            ra, rb = regs()
+            if how == "foreign-registry":
+                src_reg, tgt = ra, Unit(expr, registry=rb)
+            elif how == "stale-after-modify":
+                tgt = Unit(expr, registry=ra)  # built first ...
+                ra.modify("code_length", 40.0)  # ... then its registry moves on: x below is in the NEW unit
+                ra.modify("code_mass", 1.0)
+                ra.modify("pc", 1.0e16)
+                src_reg = ra
+            else:
+                if "code_" in expr:
+                    continue
+                src_reg, tgt = rb, Unit(expr)
+            for dtype, shape in itertools.product(("float64", "float32", "int64"), ("array", "scalar")):
+                ctx.count("evaluations")
+                x = mk([1.0, 3.0, 8.0], dtype, expr, shape, registry=src_reg)
+                s_src, s_tgt = float(x.units.base_value), float(tgt.base_value)
+                want_si = np.asarray(x.d, dtype=float) * s_src
+                before = (x.tobytes(), world.unit_digest(x.units))
+                routes = {
+                    "to": lambda: x.to(tgt),
+                    "in_units": lambda: x.in_units(tgt),
+                    "to_value": lambda: unyt_array(np.asarray(x.to_value(tgt)), tgt),
+                    "convert_to_units": lambda: (lambda y: (y.convert_to_units(tgt), y)[1])(x.copy()),
+                    "by_hand": lambda: unyt_array(np.asarray(x.d) * x.units.get_conversion_factor(tgt, x.dtype)[0], tgt),
+                    "unit-level-factor": lambda: unyt_array(np.asarray(x.d, dtype=float) * float(x.units.get_conversion_factor(tgt)[0]), tgt),
+                }
+                for rname, f in routes.items():
+                    r = attempt(f)
+                    case = {"part": "namesake", "expr": expr, "how": how, "dtype": dtype, "shape": shape, "route": rname}
+                    base = f"C03|namesake|how={how}|route={rname}"
+                    ctx.outcome(("namesake", how, rname, r[0], dtype))
+                    if r[0] != "ok":
+                        ctx.violation(base + f"|mode=raises:{r[1] if len(r) > 1 else ''}", case, "value", str(r[1:])[:100])
+                        continue
+                    ctx.decided(("namesake", expr, how, dtype, shape, rname))
+                    got_si = np.asarray(r[1].d, dtype=float) * s_tgt
+                    tol = 16 * (EPS["float32"] if dtype == "float32" else EPS["float64"])
+                    if np.any(np.abs(got_si - want_si) > tol * np.abs(want_si)):
+                        ctx.violation(base + "|mode=converted-by-spelling-not-by-definition", case, (np.asarray(want_si) / s_tgt).tolist(), np.asarray(r[1].d, dtype=float).tolist())
+                if (x.tobytes(), world.unit_digest(x.units)) != before:
+                    ctx.violation(f"C03|namesake|how={how}|mode=source-changed", {"part": "namesake", "expr": expr, "how": how}, None, None)
+
+
+NAMESAKE_EXPRS = ["code_length", "code_mass", "kcode_mass", "code_length/code_time", "code_mass*code_length/code_time**2", "code_length**2", "pc", "kpc", "Mpc/code_time", "pc**-3", "sqrt(code_length)"]
+
+
 def run(ctx):
     harness.pmap(ctx, part_spellings, [[k] for k in SPELLINGS])
     harness.pmap(ctx, part_registry_default_system, [["cgs"], ["imperial"], ["galactic"], ["mks"]])
+    harness.pmap(ctx, part_namesake, [[e] for e in NAMESAKE_EXPRS])
     groups = default_groups(ctx.tier)
     shards = []
     for d, names in sorted(groups.items()):
@@ -468,6 +559,8 @@ def replay(case):
         part_registry_default_system(ctx, [case["system"]])
     elif case["part"] == "base":
         part_base(ctx, [case["unit"]])
+    elif case["part"] == "namesake":
+        part_namesake(ctx, [case["expr"]])
     else:
         registry = affine_registry()[0] if case["part"] == "affine" else None
         thirds = [case["C"]] if "C" in case else ()
